@@ -331,9 +331,15 @@ class DiscreteFourierTransformBase(Operator):
         y = self.range.element()
         kwargs.pop('planning_timelimit', None)
 
+        arr_out = y.asarray()
+        if (is_real_dtype(arr_out.dtype) and not is_real_dtype(x.dtype) and
+                not self.halfcomplex):
+            # See `DiscreteFourierTransformInverse._call_pyfftw`
+            arr_out = np.empty(arr_out.shape, dtype=x.dtype)
+
         direction = 'forward' if self.sign == '-' else 'backward'
         self._fftw_plan = pyfftw_call(
-            x.asarray(), y.asarray(), direction=direction,
+            x.asarray(), arr_out, direction=direction,
             halfcomplex=self.halfcomplex, axes=self.axes,
             planning_effort=planning_effort, **kwargs)
 
@@ -619,10 +625,14 @@ class DiscreteFourierTransformInverse(DiscreteFourierTransformBase):
                                  axes=self.axes)
         else:
             if self.sign == '+':
-                return np.fft.ifftn(x, axes=self.axes)
+                out = np.fft.ifftn(x, axes=self.axes)
             else:
-                return (np.fft.fftn(x, axes=self.axes) /
-                        np.prod(np.take(self.domain.shape, self.axes)))
+                out = (np.fft.fftn(x, axes=self.axes) /
+                       np.prod(np.take(self.domain.shape, self.axes)))
+
+            # Keep only the real part for the inverse of a full transform
+            # on a real space
+            return out.real if is_real_dtype(self.range.dtype) else out
 
     def _call_pyfftw(self, x, out, **kwargs):
         """Implement ``self(x[, out, **kwargs])`` using pyfftw.
@@ -672,6 +682,13 @@ class DiscreteFourierTransformInverse(DiscreteFourierTransformBase):
             pass
         effort = flags[0] if flags else 'measure'
 
+        # The inverse of a full (not half-complex) transform on a real space
+        # is computed as complex transform, of which the real part is kept
+        out_real = None
+        if is_real_dtype(out.dtype) and not self.halfcomplex:
+            out_real = out
+            out = np.empty(out.shape, dtype=x.dtype)
+
         direction = 'forward' if self.sign == '-' else 'backward'
         self._fftw_plan = pyfftw_call(
             x, out, direction=direction, axes=self.axes,
@@ -682,6 +699,10 @@ class DiscreteFourierTransformInverse(DiscreteFourierTransformBase):
         # does not offer a way to do this.
         if self.sign == '-':
             out /= np.prod(np.take(self.domain.shape, self.axes))
+
+        if out_real is not None:
+            out_real[:] = out.real
+            out = out_real
 
         return out
 
